@@ -121,6 +121,21 @@ PROBES = {
     'toc_refs': '## \\[ref\\] and \\[foo\\]\n### plain *em* \\`c\\`\n',
 }
 
+# a paragraph line directly followed by each construct that may interrupt it, at every indentation that matters (0-3 spaces:
+# the construct; 4+ spaces or a tab: NOT the construct, but a look-ahead may still take it for one), and the same inside a
+# quote and a list item (lazy continuation)
+_INTERRUPTERS = {
+    'heading': ['# h'], 'quote': ['> q'], 'fence': ['```', 'code', '```'], 'list': ['- item'], 'olist': ['1. one'], 'olist7': ['7. seven'],
+    'table': ['col | col', '--- | ---', '1 | 2'], 'html': ['<div>', 'x', '</div>'], 'hr': ['***'], 'setext': ['==='], 'linkdef': ['[k]: /u'],
+}
+_INDENTS = {'0': '', '1': ' ', '3': '   ', '4': '    ', '8': '        ', 't': '\t'}
+INTERRUPT_PROBES = {}
+for _c, _lines in sorted(_INTERRUPTERS.items()):
+    for _i, _ind in sorted(_INDENTS.items()):
+        INTERRUPT_PROBES['intr_%s_%s' % (_c, _i)] = 'Lead line:\n' + ''.join(_ind + l + '\n' for l in _lines)
+    INTERRUPT_PROBES['intr_%s_in_quote' % _c] = '> Lead line:\n' + ''.join(l + '\n' for l in _lines)
+    INTERRUPT_PROBES['intr_%s_in_list' % _c] = '- Lead line:\n' + ''.join(l + '\n' for l in _lines)
+
 # "atoms": strings whose interpretation depends on WHERE they stand (which unescaping / escaping pass sees them), each put
 # into every syntactic position. Any memoisation keyed on the string alone shows up as a pair (atom at position p, then the
 # same atom at position q).
@@ -187,6 +202,8 @@ def synth_doc(rng):
         parts.append(t.format(**{k: v[rng.randrange(len(v))] for k, v in POOL.items()}))
     return '\n'.join(parts)
 
+
+PROBES.update(INTERRUPT_PROBES)
 
 # one sentinel per row of the state table (systematic sweep uses these right after every fault variant)
 SENTINELS = ['setext2', 'plain', 'code', 'ref_shortcut', 'ref_undefined', 'entity_def', 'headings',
